@@ -157,8 +157,9 @@ Definition monitor_sw (t : list Z) : list Z :=
       | d => ERR_PROPERTY :: map Z.of_nat d
       end
   end%Z.
-(* conformance for kind 8: well-formedness (the acceptance check against the swarm-level LTS is in SwAccept.v
-   when present) *)
+(* conformance for kind 8: well-formedness only.  The tie between the swarm-level LTS and the code is the
+   emitter-level acceptance (kind 6) plus the proved refinement SwModel -> Model; kind-8 traces are judged by
+   the monitor above, which is proved to accept every schedule of SwModel. *)
 Definition conform_sw (t : list Z) : list Z :=
   match sw_header t with
   | None => [ERR_MALFORMED; 0]
